@@ -57,6 +57,10 @@ def env_for(home, variant=0):
         env["LC_ALL"] = "C"
     elif variant % 3 == 2:
         env["LC_ALL"] = "C.UTF-8"
+    # a desktop session (DISPLAY names an X server) selects another default plot backend
+    env.pop("DISPLAY", None)
+    if variant % 2 == 1:
+        env["DISPLAY"] = ":0"
     return env
 
 
@@ -166,8 +170,8 @@ def classify(home):
         return "settings:PARTIAL," + ver + extra, data
 
 
-def fresh_start(home):
-    rc, info, err = child(home, ["import", "count"])
+def fresh_start(home, variant=0):
+    rc, info, err = child(home, ["import", "count"], variant=variant)
     return rc, (info or {}).get("err", "") + err[-200:]
 
 
@@ -196,7 +200,7 @@ def k_crash(run, case):
                   "%s killed at call boundary %d (%s): settings.json is left %s (%d bytes)" %
                   (scenario, K, variant, state, len(data or b"")), key="crash:%s-leaves-incomplete-file" % scenario,
                   head=(data or b"")[:80])
-        rc2, err2 = fresh_start(home)
+        rc2, err2 = fresh_start(home, variant=K)
         run.check(rc2 == 0, "a fresh start after the kill loads its settings with every default key", case,
                   "%s killed at call boundary %d (%s, disk: %s): the next evo start fails (rc=%s): %s" %
                   (scenario, K, variant, state, rc2, err2[-300:]), key="crash:%s-bricks-next-start" % scenario)
@@ -330,13 +334,15 @@ def k_nocrash(run, case):
     os.makedirs(base, exist_ok=True)
     try:
         home = prepare_home(base, scenario, stamp=stamp)
-        rc, info, err = child(home, [scenario, "count"])
-        run.seen(case, core.digest(scenario, stamp), cls=["uninterrupted:" + scenario, "home written by release %r" % stamp.strip()],
+        ev = case["rs"][-1]
+        rc, info, err = child(home, [scenario, "count"], variant=ev)
+        run.seen(case, core.digest(scenario, stamp), cls=["uninterrupted:" + scenario, "home written by release %r" % stamp.strip(),
+                                                         "desktop session (DISPLAY set)" if ev % 2 else "headless"],
                  sample={"scenario": scenario, "stamp": stamp, "rc": rc})
         run.check(rc == 0, "the uninterrupted command succeeds and sees every default key", case,
                   "%s on a home stamped %r: exit %s %s %s" % (scenario, stamp, rc, (info or {}).get("err", ""), err[-200:]),
                   key="upgrade:process-misses-default-keys" if rc == 3 else "nocrash:command-failed")
-        rc2, msg = fresh_start(home)
+        rc2, msg = fresh_start(home, variant=ev + 1)
         run.check(rc2 == 0, "the next start after an upgrade sees every default key", case,
                   "start after %s on a home stamped %r fails: %s" % (scenario, stamp, msg), key="upgrade:next-start-fails")
         rc3, msg3 = fresh_start(home)
